@@ -648,6 +648,12 @@ Inductive op :=
                                             1 the prepared builder's Do(), 2 Simple(list, final), 3 ExecAndWait(list, final) *)
 | OTaskPanics (v : pval)                 (* the tasks of chains / lists declared from here on that panic (Beh _ _ true) do so
                                             with this value (default: a string); no effect on what must happen *)
+| OConcStop (mode who n k : Z)           (* teardown with closures queued.  Fresh scheduler; consumer = Sche.Handler (mode 0), a REAL
+                                            RunService (2), the selector loop of a RunService on a harness goroutine (5).  A first closure
+                                            holds the consumer; poster 0 posts n closures behind it; then Stop() - RunService.Stop() in mode 2 -
+                                            is called by a foreign goroutine (who = 0) or by the holding closure itself, i.e. on the consumer
+                                            (who = 1); then poster 1 posts k closures (must fail).  Expected: the closures of poster 0 that
+                                            run are a prefix of its program, each on the consumer goroutine, one at a time; none of poster 1 *)
 | OConcS (mode ns rounds : Z) (tasks : list beh).
                                          (* ns schedulers with the real Handler, concurrently; on each, [rounds] chains one
                                             after the other; ALL ns*rounds chains over one shared slice (mode 0) / each
@@ -695,7 +701,10 @@ Definition is_chain_op (o : op) : bool :=
   end.
 
 Definition is_conc_op (o : op) : bool :=
-  match o with OConc _ _ | OConcN _ _ _ | OConcW _ _ | OConcReg _ _ | OConcS _ _ _ _ => true | _ => false end.
+  match o with
+  | OConc _ _ | OConcN _ _ _ | OConcW _ _ | OConcReg _ _ | OConcS _ _ _ _ | OConcStop _ _ _ _ => true
+  | _ => false
+  end.
 
 Definition is_setid (o : op) : bool := match o with OSetId _ => true | _ => false end.
 
@@ -754,6 +763,7 @@ Definition valid_op (o : op) : bool :=
   | OSetId v => in_range 0 v two32
   | OList l _ => in_range 0 l 64
   | OShare c l r => (0 <=? c) && in_range 0 l 64 && in_range 0 r 4
+  | OConcStop m w n k => ((m =? 0) || (m =? 2) || (m =? 5)) && in_range 0 w 2 && in_range 0 n 901 && in_range 0 k 33
   | OConcS m ns rd t => in_range 0 m 2 && in_range 1 ns 9 && in_range 0 rd 65 && forallb settles t
   end.
 
@@ -1146,7 +1156,7 @@ Definition w_op (w : wst) (o : op) : wst * list sev :=
   | OMgrDel n => (w_set_mgr w (m_del (w_mgr w) n), [])
   | OSetId v => (w_set_ctr w v, [])
   | OTaskPanics _ => (w, [])
-  | OConc _ _ | OConcN _ _ _ | OConcW _ _ | OConcReg _ _ | OConcS _ _ _ _ => (w, [])
+  | OConc _ _ | OConcN _ _ _ | OConcW _ _ | OConcReg _ _ | OConcS _ _ _ _ | OConcStop _ _ _ _ => (w, [])
   end.
 
 Fixpoint w_ops (w : wst) (ops : list op) : wst * list (list sev) :=
